@@ -166,12 +166,11 @@ def ob_hash(a0: int, b0: int, c0: int, d0: int, a1: int, b1: int, c1: int, d1: i
     post: _
     """
     cls_name = h.P("cls")
+    dom = h.P("dom", [2, 2, 2, 2])
     try:
-        x = [_pick(v, 3) for v in (a0, b0, c0, d0, a1, b1, c1, d1)]
+        x = [_pick(v, dom[i % 4]) for i, v in enumerate((a0, b0, c0, d0, a1, b1, c1, d1))]
     except graph.Vacuous:
         return True
-    if cls_name == "Feature":
-        pass
     o1 = _mk(cls_name, *x[:4])
     o2 = _mk(cls_name, *x[4:])
     eq = o1 == o2
@@ -201,7 +200,10 @@ def plan():
         tw = ("equal", "unequal")
         if cls in ("Term", "Tag", "Feature"):
             tw = ("equal", "unequal", "unequal_same_hash")
-        obs.append(Ob("hash-" + cls, ob_hash, "real", 2400, dict(cls=cls), q, twins=tw, twin_timeout=300))
+        dom = [2, 2, 5, 1] if cls == "Feature" else [2, 2, 2, 2]
+        obs.append(Ob("hash-" + cls, ob_hash, "real", 1200, dict(cls=cls, dom=dom), q, twins=tw, twin_timeout=300))
+        obs.append(Ob("hash3-" + cls, ob_hash, "real", 6000, dict(cls=cls, dom=[3, 3, 5 if cls == "Feature" else 3, 2]),
+                      ("thorough",), twins=("equal",), twin_timeout=300))
     return obs
 
 
@@ -215,7 +217,7 @@ INFO = dict(
     bounds="vocabularies of 0..3 pairwise distinct tags and query lists of 0..3 tags (repeats, out-of-vocabulary) "
     "drawn from 6 (quick) / 12 (thorough) tag codes covering name x label x value combinations (same name different "
     "label and vice versa); predicted scores symbolic in [0,1]; hash contract: every pair of instances of each of "
-    "the eight classes over 3^4 x 3^4 field-atom combinations (feature values from {0.0, -0.0, 1.0, 1, 0.5})",
+    "the eight classes over 2^4 x 2^4 (quick) / (3*3*3*2)^2 (thorough) field-atom combinations (feature values from {0.0, -0.0, 1.0, 1, 0.5})",
     trusted_base=["models/pyd.py (equality = class + field dict + extras)", "models/npl.py (zeros, item assignment)",
                   "builtin hash of the concrete atoms (strings/ints/uuids)", "CrossHair 0.0.110 + z3"],
     outside=["float32 rounding of stored scores (compared up to 1e-7 in replay)", "larger vocabularies"],
